@@ -457,9 +457,13 @@ func (e *Engine) copyCells(st *State, dst, do, src, so, n *smt.Term) *smt.Term {
 	for i := range vals {
 		vals[i] = c.Select(src, c.Add(so, e.k64(uint64(i))))
 	}
+	// value-level ite (a store of the old value is a no-op) instead of an ite over arrays:
+	// distinct i write distinct cells, so the old value can be read from the original dst
+	orig := dst
 	for i := range vals {
 		ki := e.k64(uint64(i))
-		dst = c.Ite(c.Ult(ki, n), c.Store(dst, c.Add(do, ki), vals[i]), dst)
+		at := c.Add(do, ki)
+		dst = c.Store(dst, at, c.Ite(c.Ult(ki, n), vals[i], c.Select(orig, at)))
 	}
 	return dst
 }
